@@ -55,6 +55,7 @@ class P:
     def __init__(self, toks):
         self.all = toks                  # full list, trivia included
         self.pos = 0
+        self.high = -1                   # highest token index consumed
         self.fence = None                # short-if / ? line end (token index)
 
     # --- cursor -------------------------------------------------------------
@@ -97,6 +98,8 @@ class P:
         if kinds is not None and not t.is_(kinds):
             raise Reject('expected %s' % what)
         self.pos = k + 1
+        if k > self.high:
+            self.high = k
         return t.index
 
     def line_end_from(self, pos):
